@@ -22,6 +22,41 @@ ASSUMPTIONS = ['layout facts come from the reference reading of the tree (pv/ref
                'the statement fixes no particular context for them']
 
 
+VIAS = ['decode', 'loads', 'iterdecode', 'codec', 'load-name', 'load-path', 'load-fileobj', 'load-stringio']
+
+
+def _decode_via(via, node, m):
+    """The graph "decoded from a text": through layout.interpret on the tree, or through one of the public decoding
+    entry points on the formatted text (all of them take the model)."""
+    if not via:
+        return layout.interpret(Tree(node), m)
+    import io
+    import os
+    import pathlib
+    import penman
+    from pv.harness import tmpdir
+    text = penman.format(Tree(node), indent=None)
+    if via == 'decode':
+        return penman.decode(text, model=m)
+    if via == 'loads':
+        return penman.loads(text, model=m)[0]
+    if via == 'iterdecode':
+        return next(iter(penman.iterdecode(text, model=m)))
+    if via == 'codec':
+        return penman.PENMANCodec(model=m).decode(text)
+    if via == 'load-stringio':
+        return penman.load(io.StringIO(text), model=m)[0]
+    p = os.path.join(tmpdir(), 'c14.txt')
+    with open(p, 'w', encoding='utf-8') as fh:
+        fh.write(text)
+    if via == 'load-name':
+        return penman.load(p, model=m, encoding='utf-8')[0]
+    if via == 'load-path':
+        return penman.load(pathlib.Path(p), model=m, encoding='utf-8')[0]
+    with open(p, encoding='utf-8') as fh:
+        return penman.load(fh, model=m)[0]
+
+
 def check(case):
     spec = case['model']
     node = interp.to_node(case['tree'])
@@ -29,7 +64,7 @@ def check(case):
         return []
     m = build_model(spec)
     noise_calls(m, node)
-    g = layout.interpret(Tree(node), m)
+    g = _decode_via(case.get('via'), node, m)
     rd = interp.interpret(node, spec)
     f = []
     if g.triples != rd.triples:
@@ -95,6 +130,7 @@ def classes(case):
     if why is not None:
         return ['skipped:' + why]
     out = ['model:' + case['model'].get('name', 'custom'), 'stripped' if case.get('strip') else 'decoded'] + tree_classes(node)
+    out.append('via:' + (case.get('via') or 'interpret'))
     if _closes_early(node):
         out.append('closes-early')
     return out
@@ -104,7 +140,10 @@ def classes(case):
 def _cases(draw, deep=False, large=False):
     spec = draw(models.model_specs(open_patterns=True))
     j = draw(trees.wf_trees(spec, max_nodes=40 if large else (14 if deep else 8), deep=deep, aligned=draw(st.booleans()), wide=14 if large else 3))
-    return {'tree': j, 'model': spec, 'strip': draw(st.integers(0, 4)) == 0}
+    case = {'tree': j, 'model': spec, 'strip': draw(st.integers(0, 4)) == 0}
+    if draw(st.integers(0, 2)) == 0:
+        case['via'] = draw(st.sampled_from(VIAS))
+    return case
 
 
 NCHUNK = 32
